@@ -1,0 +1,5 @@
+//go:build !verif
+
+package mpegts
+
+func verifPoint(name string, obj interface{}) {}
